@@ -13,10 +13,13 @@ Inductive implres : Type :=
 | IBool (b : bool)
 | IKept                       (* the expression was kept verbatim *)
 | IErr
-| IOther.                     (* panic, crash or anything else *)
+| IOther                      (* panic, crash or anything else *)
+| IText (num den : Z) (display : string) (units : list (string * Z))
+                              (* a number observed as printed decimal text num/den (math.div route) *)
+| INone.                      (* no second observation *)
 
 Record case := mkCase {
-  c_op : nop; c_a : Z; c_ua : string; c_b : Z; c_ub : string; c_impl : implres }.
+  c_op : nop; c_a : Z; c_ua : string; c_b : Z; c_ub : string; c_impl : implres; c_impl2 : implres }.
 
 (* source text of a unit -> model unit, through the parser table of the code *)
 Definition unit_of_text (t : string) : unit :=
@@ -34,23 +37,49 @@ Definition model_result (c : case) : nres :=
 Definition canon_z (z : Z) : Z := canon_bits (of_bits z).
 
 (* correspondence: 1 agree, 0 disagree, 2 outside the model *)
-Definition corr (c : case) : Z :=
-  match model_result c, c_impl c with
-  | RUnmodelled, _ => 2
-  | RNum n, INum b d _ =>
-      if (canon_bits (nval n) =? canon_z b)%Z && String.eqb (us_display (nunit n)) d then 1 else 0
-  | RBool x, IBool y => if Bool.eqb x y then 1 else 0
-  | RKept, IKept => 1
-  | _, _ => 0
-  end%Z.
-
-(* ---- the property, on the implementation's answer ---- *)
-
 Definition q_of_bits (z : Z) : option Q :=
   match f_to_Q (of_bits z) with
   | Some (m, e) => Some (if (0 <=? e)%Z then inject_Z (m * 2 ^ e)%Z else (m # Z.to_pos (2 ^ (- e))%Z))
   | None => None
   end.
+
+(* the implementation's number as an exact rational, with its units *)
+Definition impl_q (i : implres) : option (Q * list (string * Z)) :=
+  match i with
+  | INum b _ us => match q_of_bits b with Some q => Some (q, us) | None => None end
+  | IText n d _ us => if (0 <? d)%Z then Some (n # Z.to_pos d, us) else None
+  | _ => None
+  end.
+Definition is_number (i : implres) : bool :=
+  match i with INum _ _ _ | IText _ _ _ _ => true | _ => false end.
+
+Definition tol_text : Q := 1 # 1000000000.
+(* inspect() prints 10 decimals: absolute 1e-10 plus relative 1e-9 *)
+Definition text_close (a b : Q) : bool :=
+  Qle_bool (Qabs (a - b)) ((1 # 10000000000) + tol_text * Qabs a).
+
+Definition corr_with (c : case) (i : implres) : Z :=
+  match model_result c, i with
+  | RUnmodelled, _ => 2
+  | RNum n, INum b d _ =>
+      if (canon_bits (nval n) =? canon_z b)%Z && String.eqb (us_display (nunit n)) d then 1 else 0
+  | RBool x, IBool y => if Bool.eqb x y then 1 else 0
+  | RKept, IKept => 1
+  | RNum n, IText num den d _ =>
+      match q_of_bits (to_bits (nval n)) with
+      | Some q => if (0 <? den)%Z && String.eqb (us_display (nunit n)) d
+                     && text_close q (num # Z.to_pos den) then 1 else 0
+      | None => 2
+      end
+  | _, INone => 1
+  | _, _ => 0
+  end%Z.
+Definition corr (c : case) : Z :=
+  let a := corr_with c (c_impl c) in
+  let b := corr_with c (c_impl2 c) in
+  if (a =? 0)%Z || (b =? 0)%Z then 0%Z else if (a =? 2)%Z then 2%Z else 1%Z.
+
+(* ---- the property, on the implementation's answer ---- *)
 
 Definition is_cmp (o : nop) : bool :=
   match o with OLt | OLe | OGt | OGe => true | _ => false end.
@@ -82,7 +111,7 @@ Fixpoint cancelled (l : list (string * Z)) : bool :=
 (* clause ids: 1 = converted value correct / no conversion where none exists,
                2 = incompatible known units are an error,
                3 = convertible units cancelled in products and quotients *)
-Definition clause1 (c : case) : bool :=
+Definition clause1_on (c : case) (i : implres) : bool :=
   match q_of_bits (c_a c), q_of_bits (c_b c) with
   | Some a, Some b =>
     match c_op c with
@@ -93,17 +122,13 @@ Definition clause1 (c : case) : bool :=
           let (qa, da) := quantity a [(ua, 1%Z)] in
           let (qb, _) := quantity b [(ub, 1%Z)] in
           let expect := match c_op c with OPlus => qa + qb | _ => qa - qb end in
-          match c_impl c with
-          | INum r _ us =>
-              match q_of_bits r with
-              | Some rq => let (qr, dr) := quantity rq us in
-                           dv_eqb dr da && (q_close tol_rel qr expect
-                             || Qle_bool (Qabs (qr - expect)) (tol_rel * (Qabs qa + Qabs qb)))
-              | None => false
-              end
-          | _ => false
+          match impl_q i with
+          | Some (rq, us) => let (qr, dr) := quantity rq us in
+                             dv_eqb dr da && (q_close tol_rel qr expect
+                               || Qle_bool (Qabs (qr - expect)) (tol_rel * (Qabs qa + Qabs qb)))
+          | None => false
           end
-        else match c_impl c with INum _ _ _ | IOther => false | _ => true end
+        else match i with INum _ _ _ | IText _ _ _ _ | IOther => false | _ => true end
     | OLt | OLe | OGt | OGe | OEq | ONe =>
         if compat c then
           let ua := if unitless (c_ua c) then eff_unit c else c_ua c in
@@ -111,7 +136,7 @@ Definition clause1 (c : case) : bool :=
           let (qa, _) := quantity a [(ua, 1%Z)] in
           let (qb, _) := quantity b [(ub, 1%Z)] in
           let one_unitless := xorb (unitless (c_ua c)) (unitless (c_ub c)) in
-          match c_impl c with
+          match i with
           | IBool r =>
               if q_close tol_rel qa qb && negb (Qeq_bool qa qb) then true   (* inside the tolerance zone either answer is fine *)
               else if one_unitless && negb (is_cmp (c_op c)) then true      (* `1px == 1`: reading left open by the statement *)
@@ -119,7 +144,7 @@ Definition clause1 (c : case) : bool :=
           | _ => false
           end
         else
-          match c_op c, c_impl c with
+          match c_op c, i with
           | OEq, IBool r => negb r
           | ONe, IBool r => r
           | _, IBool r => negb r           (* no conversion can have made it true *)
@@ -132,18 +157,18 @@ Definition clause1 (c : case) : bool :=
         let (qb, db) := quantity 1 [(c_ub c, sgn)] in
         let expect := match c_op c with OMul => qa * (b * qb) | _ => qa * qb / b end in
         let dexp := fold_left (fun d gp => dv_add d (fst gp) (snd gp)) db da in
-        match c_impl c with
-        | INum r _ us =>
-            match q_of_bits r with
-            | Some rq => let (qr, dr) := quantity rq us in
-                         dv_eqb dr dexp && q_close tol_rel qr expect
-            | None => false
-            end
-        | _ => false
+        match impl_q i with
+        | Some (rq, us) =>
+            let (qr, dr) := quantity rq us in
+            dv_eqb dr dexp && (match i with IText _ _ _ _ => Qle_bool (Qabs (expect - qr)) ((1 # 10000000) + tol_text * Qabs expect) | _ => q_close tol_rel qr expect end)
+        | None => false
         end
     end
   | _, _ => true      (* non-finite magnitudes are outside the statement *)
   end.
+
+Definition clause1 (c : case) : bool :=
+  clause1_on c (c_impl c) && match c_impl2 c with INone => true | i => clause1_on c i end.
 
 Definition clause2 (c : case) : bool :=
   match c_op c with
@@ -154,11 +179,12 @@ Definition clause2 (c : case) : bool :=
   | _ => true
   end.
 
-Definition clause3 (c : case) : bool :=
-  match c_op c, c_impl c with
-  | OMul, INum _ _ us | ODiv, INum _ _ us => cancelled us
+Definition clause3_on (c : case) (i : implres) : bool :=
+  match c_op c, impl_q i with
+  | OMul, Some (_, us) | ODiv, Some (_, us) => cancelled us
   | _, _ => true
   end.
+Definition clause3 (c : case) : bool := clause3_on c (c_impl c) && clause3_on c (c_impl2 c).
 
 (* ---- known-finding classes: decidable conditions on the INPUT only ---- *)
 Definition lone_family (u : string) : N :=
